@@ -113,7 +113,7 @@ Verdict(r) ==
       \* ---------------- classes of documented divergences, granted only when both modes behave
       \* exactly as specified
       forced == "name:typedef-names-tagged-aggregate"
-      cycle == "realize:by-value-aggregate-of-function-type-under-construction"
+      cycle == "realize:aggregate-needed-by-value-while-under-construction"
       TErr(o) == o[1] = "error"
       RErr(o) == Has(o, "error")
       cTd(n) == IF iTd(n) /\ TErr(r.ool.td[n]) /\ TouchesCycle(ev, ev.td[n]) THEN cycle
